@@ -51,6 +51,18 @@ def gen_cases(ctx):
         ck = rng.choice([None, None, "real"])
         terms = [rand_string(rng, n, ck) for _ in range(k)]
         mk(rng.choice(["sum_apply", "expect", "expect"]), n, terms, style=rng.choice(["generic", "normalised"]))
+    # terms whose coefficient is exactly 0 / -0 (the start of a parameter sweep): all of them, some of them; and sums mixing exactly real
+    # with complex coefficients - the sum still acts (as the zero operator / term by term) and its expectation value keeps every part
+    zero = lambda: [float2bits(rng.choice([0.0, -0.0])), float2bits(rng.choice([0.0, -0.0]))]
+    for n in (1, 2, 3, 4):
+        for k in (1, 2, 4):
+            allz = [dict(rand_string(rng, n), coef=zero()) for _ in range(k)]
+            somez = [dict(rand_string(rng, n), coef=zero()) for _ in range(k)] + [rand_string(rng, n, "complex")]
+            rng.shuffle(somez)
+            mixed = [rand_string(rng, n, "real") for _ in range(k)] + [rand_string(rng, n, "complex") for _ in range(k)]
+            rng.shuffle(mixed)
+            for terms in (allz, somez, mixed):
+                mk("sum_apply", n, terms, style="generic"); mk("expect", n, terms, style="normalised")
     # expectation values on registers above the 64-amplitude threshold of the parallel inner product, complex coefficients
     for n in (7, 7, 8):
         mk("expect", n, [rand_string(rng, n, "complex") for _ in range(rng.randrange(2, 5))], style="normalised")
